@@ -135,3 +135,13 @@ PROPS["C16"] = {
             "tracking tokens of the same SP, cross-deployment replay with a shared key; RSA and ECDSA deployments with custom lifetime and cookie name; tokens minted by the real codec from random assertions "
             "(friendly names, repeated attributes, several statements, absent Subject/NameID) — observed through RequireAccount/RequireAttribute",
 }
+
+PROPS["C17"] = {
+    "modules": ["SamlVerif.Props.C17"],
+    "trusted_base": ["modelled, not verified: net/http cookie parsing and Set-Cookie semantics, the SAML response validation itself (abstracted to valid/InResponseTo here; it is C01-C04's subject), golang-jwt (see C16)",
+                     "cookie names are abstracted to tracking(index) / session / other (strings.HasPrefix / TrimPrefix with the fixed prefix \"saml_\")"],
+    "assumptions": ["browser jars hold at most one cookie per name (hypothesis of the completion theorems; the refusal/binding theorems hold for arbitrary cookie lists)"],
+    "rule": "histories over 1-3 (thorough: 1-5) concurrent flows in one browser, redirect and POST request bindings, http and https deployments: every flow start, then per flow 12 adversarial deliveries "
+            "(no cookies, only other flows' cookies, renamed, tampered, forged by another key, session token as tracker, foreign InResponseTo, invalid response, no RelayState, URL as RelayState, other flow's RelayState), "
+            "then faithful completion in a random order with clock moves around the tracking lifetime and replays; each ACS reply (status, Location, session cookie and flags, cleared cookies) compared with the model",
+}
